@@ -1,3 +1,154 @@
+(* C12 — property theorems only.  Each is closed by [exact <lemma>] and followed by Print Assumptions.
+   Vocabulary (Model.v / Proofs.v):
+     step s o = Ok s'   one operation on the stream state returned normally
+     conversion o       o is phases=, phase=, reduce_phases, as_stream, .vle/.lle/.sle, s[phase] or get_data
+     flow s p           dense flow vector of phase p (zeros when the stream has no such phase)
+     fl s p j           chemical j of it;  total s j = sum over the five phases
+     pset_now s         the set of phase labels the stream has now
+     covers s t         every non-empty phase of s has its label, or the other case of it, in t
+     placed s s'        material of phase p of s is found in s' under p if s' has p, else under the other case
+     live_inv s         every cached sub-stream aliases the parent's CURRENT row of its label and every
+                        sub-stream ever made holds the parent's thermal-condition object
+     good s             well-formed heap/rows/snapshots; MultiStreams never have exactly one phase
+     has_rows s         a MultiStream has at least one phase (phases = () on an empty stream gives none) *)
 From V Require Import Common.NumFacts C12.Model C12.Proofs.
-Theorem C12_placeholder : True. Proof. exact placeholder. Qed.
-Print Assumptions C12_placeholder.
+
+(* ---- totals, T, P ---- *)
+Theorem C12_totals_preserved : forall s o s',
+  wf s -> conversion o = true -> step s o = Ok s' -> forall j, total s' j == total s j.
+Proof. intros s o s' W C H. exact (proj1 (proj2 (proj2 (proj2 (step_conv s o s' C W H))))). Qed.
+Print Assumptions C12_totals_preserved.
+
+Theorem C12_TP_preserved : forall s o s',
+  wf s -> conversion o = true -> step s o = Ok s' -> T_of s' = T_of s /\ P_of s' = P_of s.
+Proof. intros s o s' W C H. exact (proj1 (proj2 (proj2 (step_conv s o s' C W H)))). Qed.
+Print Assumptions C12_TP_preserved.
+
+(* ... along every history of conversions, of any length *)
+Theorem C12_totals_TP_all_histories : forall ops s s',
+  good s -> Forall (fun o => conversion o = true) ops -> run s ops = Ok s' ->
+  (forall j, total s' j == total s j) /\ T_of s' = T_of s /\ P_of s' = P_of s.
+Proof. exact run_conversions. Qed.
+Print Assumptions C12_totals_TP_all_histories.
+
+(* ---- placement ---- *)
+Theorem C12_placement : forall s o s',
+  wf s -> conversion o = true -> step s o = Ok s' -> covers s (pset_now s') ->
+  forall q j, fl s' q j ==
+    psum all_phases (fun p => if lands (pset_now s') p q then fl s p j else 0).
+Proof. intros s o s' W C H. exact (proj2 (proj2 (proj2 (proj2 (step_conv s o s' C W H))))). Qed.
+Print Assumptions C12_placement.
+
+(* phases = <two or more distinct labels>: if it returns, the stream has exactly those phases, every
+   non-empty phase was covered by them (otherwise it raises) and the material is placed by the rule *)
+Theorem C12_explicit_target : forall s t s',
+  wf s -> set_phases s t false = Ok s' -> pset_card t <> 1%nat ->
+  wf s' /\ frame s s' /\ (forall p, pset_now s' p = t p) /\ covers s t /\ placed s s'.
+Proof. exact set_phases_multi_target. Qed.
+Print Assumptions C12_explicit_target.
+
+(* merely asking for .vle/.lle/.sle moves nothing: every phase keeps its own material and label *)
+Theorem C12_accessor_moves_nothing : forall s a s',
+  wf s -> step s (OAcc a) = Ok s' ->
+  covers s (pset_now s') /\ (forall q j, fl s' q j == fl s q j) /\
+  (forall p, pset_now s p = true -> pset_now s' p = true).
+Proof. exact accessor_keeps. Qed.
+Print Assumptions C12_accessor_moves_nothing.
+
+(* ---- live views ---- *)
+Theorem C12_views_live : forall ops s s', live_inv s -> run s ops = Ok s' -> live_inv s'.
+Proof. exact run_live. Qed.
+Print Assumptions C12_views_live.
+
+Theorem C12_view_reads_parent : forall s i v,
+  live_inv s -> nth_error (views s) i = Some v -> vin v = true ->
+  exists r q, par s = Multi r /\ resolve (rset r) (vlabel v) = Some q /\ r q = Some (vcell v) /\
+              cellv (heap s) (vcell v) = flow s q /\ tc_get (tcs s) (vtc v) = (T_of s, P_of s).
+Proof. exact view_reads_parent. Qed.
+Print Assumptions C12_view_reads_parent.
+
+Theorem C12_write_through_view : forall s i j x s' v,
+  wf s -> live_inv s -> nth_error (views s) i = Some v -> vin v = true ->
+  step s (OWriteView i j x) = Ok s' ->
+  exists q, resolve (pset_now s) (vlabel v) = Some q /\
+    flow s' q = upd (flow s q) j x /\ (forall p, p <> q -> flow s' p = flow s p) /\ live_inv s'.
+Proof. exact write_view_visible. Qed.
+Print Assumptions C12_write_through_view.
+
+Theorem C12_write_through_parent : forall s l j x s',
+  live_inv s -> step s (OWriteParent l j x) = Ok s' -> is_multi s = true ->
+  exists q, resolve (pset_now s) l = Some q /\ flow s' q = upd (flow s q) j x /\
+    forall v, In v (views s') -> vin v = true -> resolve (pset_now s') (vlabel v) = Some q ->
+              cellv (heap s') (vcell v) = flow s' q.
+Proof. exact write_parent_visible. Qed.
+Print Assumptions C12_write_through_parent.
+
+(* a sub-stream stays the parent's cached (hence live) sub-stream across EVERY operation unless the stream
+   collapsed to a single phase or no longer has a row for its label *)
+Theorem C12_view_stays_cached : forall s o s' i v,
+  live_inv s -> step s o = Ok s' -> nth_error (views s) i = Some v -> vin v = true ->
+  exists v', nth_error (views s') i = Some v' /\ vlabel v' = vlabel v /\
+    (vin v' = true \/ is_multi s' = false \/ resolve (pset_now s') (vlabel v) = None).
+Proof. intros s o s' i v L H. exact (step_stays s o s' L H i v). Qed.
+Print Assumptions C12_view_stays_cached.
+
+(* ---- get_data / set_data ---- *)
+Theorem C12_data_roundtrip : forall s0 ops s s',
+  good s0 ->
+  run (set_saved s0 (saved s0 ++ [snapshot s0])) ops = Ok s ->
+  step s (ORestore (length (saved s0))) = Ok s' ->
+  is_multi s' = is_multi s0 /\ (forall p, pset_now s' p = pset_now s0 p) /\
+  (forall p, flow s' p = flow s0 p) /\ T_of s' = T_of s0 /\ P_of s' = P_of s0.
+Proof. exact data_roundtrip_lemma. Qed.
+Print Assumptions C12_data_roundtrip.
+
+Theorem C12_histories_stay_good : forall ops s s',
+  good s -> run s ops = Ok s' -> good s' /\ nch s' = nch s /\ exists l, saved s' = saved s ++ l.
+Proof. exact run_good. Qed.
+Print Assumptions C12_histories_stay_good.
+
+(* ---- inside the property's quantifier nothing raises ---- *)
+(* phases = t for ANY target that covers the non-empty phases (up to case) returns *)
+Theorem C12_covered_target_never_raises : forall s t,
+  wf s -> has_rows s -> covers s t -> exists s', set_phases s t false = Ok s'.
+Proof. exact set_phases_total. Qed.
+Print Assumptions C12_covered_target_never_raises.
+
+(* set_data of ANY earlier snapshot returns, whatever the stream holds now *)
+Theorem C12_restore_never_raises : forall s d,
+  good s -> In d (saved s) -> has_rows s -> exists s', restore s d = Ok s'.
+Proof. exact restore_total. Qed.
+Print Assumptions C12_restore_never_raises.
+
+(* ---- non-vacuity: the hypotheses are met by reachable states, and the histories do return ---- *)
+Definition ex0 : st := init_single 3 Ps [1; 0; 2] 300 101325.
+Example C12_ex_good : good ex0 /\ live_inv ex0.
+Proof. apply init_single_good. reflexivity. Qed.
+
+(* a solid stream: .vle, take the view of 's', change the phases, write through the OLD view, save,
+   mutate, collapse, restore: everything returns *)
+Definition ex_ops : list op :=
+  [OAcc AVle; OView Ps; OSetPhases [PS; Pg; Pl; PL] false; OWriteView 0 1 (7#2); OSave;
+   OWriteParent Pg 0 5; OSetT 400; OReduce; ORestore 0].
+Example C12_ex_history_returns :
+  match run ex0 ex_ops with
+  | Ok s => phases_of s = [PL; PS; Pg; Pl] /\ flow s PS = [1; 7#2; 2] /\ T_of s = 300 /\
+            total s 0%nat == 1 /\ is_multi s = true
+  | Err _ => False
+  end.
+Proof. vm_compute. repeat split; reflexivity. Qed.
+
+(* the view taken before the phase change still is the parent's sub-stream and sees the parent's row *)
+Example C12_ex_view_live :
+  match run ex0 [OAcc AVle; OView Ps; OSetPhases [PS; Pg; Pl; PL] false; OWriteParent PS 2 9] with
+  | Ok s => map (fun v => (vin v, cellv (heap s) (vcell v))) (views s) = [(true, [1; 0; 9])] /\ flow s PS = [1; 0; 9]
+  | Err _ => False
+  end.
+Proof. vm_compute. split; reflexivity. Qed.
+
+Example C12_ex_covers : covers ex0 (pset_of [PS; Pg]) /\ ~ covers ex0 (pset_of [Pg; Pl]).
+Proof.
+  split.
+  - intros p j R. destruct p; try (vm_compute in R; discriminate); exact (nthq_vzero 3 j).
+  - intros H. specialize (H Ps 0%nat eq_refl). vm_compute in H. discriminate.
+Qed.
